@@ -33,6 +33,7 @@ struct Frame {  // a datagram in flight / queued
 struct CanRec {
     uint32_t can_id = 0;
     uint8_t len = 0, flags = 0;
+    uint16_t junk = 0;  // bytes a receiver must ignore: __pad/__res0 of a classic frame, __res0/__res1 of an FD frame (a virtual CAN interface passes them through)
     uint8_t dlc8 = 0;  // classic frames of 8 bytes: raw DLC 9..15 as reported by controllers in cc-len8-dlc mode (struct can_frame.len8_dlc)
     bool fd = false;
     uint8_t data[64] = {0};
@@ -50,6 +51,7 @@ struct FdEnt {
     std::deque<Frame> rxq;
     // can
     bool canfd_enabled = false;
+    bool pmtudisc_do = false;  // IP_MTU_DISCOVER = IP_PMTUDISC_DO/PROBE: datagrams above the path MTU are refused instead of fragmented
     int bus = -1;
     std::deque<CanRec> canq;
     std::vector<struct can_filter> can_filters;  // CAN_RAW_FILTER (empty = the default filter that accepts every data frame)
